@@ -6,5 +6,5 @@ CONSTANTS CpuFloorUs = 15000000
   CpuPerKiBUs = 100000
   AllocFloorKiB = 163840
   AllocPerKiB = 4096
-  MaxLenKiB = 65536
+  MaxLenKiB = 16384
 CHECK_DEADLOCK FALSE
